@@ -430,6 +430,16 @@ pub fn gen_related(t: &mut Tape) -> Related {
     let a = gen_case(t);
     let b = match &a.0 {
         RefAddr::Unknown => gen_case(t).0,
+        // the same 32-bit values in the other family: as IPv4-compatible (::a.b.c.d) or IPv4-mapped (::ffff:a.b.c.d) addresses
+        RefAddr::Tcp4 { src, dst, sport, dport } if t.chance(1, 6) => {
+            let w = |a: [u8; 4], mapped: bool| [0, 0, 0, 0, 0, if mapped { 0xffff } else { 0 }, u16::from_be_bytes([a[0], a[1]]), u16::from_be_bytes([a[2], a[3]])];
+            let mapped = t.coin();
+            RefAddr::Tcp6 { src: w(*src, mapped), dst: w(*dst, mapped), sport: *sport, dport: if t.coin() { *dport } else { tweak_port(t, *dport) } }
+        }
+        RefAddr::Tcp6 { src, dst, sport, dport } if t.chance(1, 8) => {
+            let n = |g: [u16; 8]| [(g[6] >> 8) as u8, g[6] as u8, (g[7] >> 8) as u8, g[7] as u8];
+            RefAddr::Tcp4 { src: n(*src), dst: n(*dst), sport: *sport, dport: *dport }
+        }
         RefAddr::Tcp4 { src, dst, sport, dport } => {
             let (mut src, mut dst, mut sport, mut dport) = (*src, *dst, *sport, *dport);
             match t.below(5) {
